@@ -573,6 +573,18 @@ impl Model {
                             format!("ARP reply advertises {} which is not in the self-IP list", Ip::V4(a.spa)),
                         ));
                     }
+                    // the shape of an ARP reply (C05: "an ARP reply (Ethernet/IPv4, op 2)") whenever the
+                    // request asked for an IPv4 address with Ethernet-sized fields, whatever hardware
+                    // type it announced
+                    if let Some(q) = Arp::parse(e.payload) {
+                        if q.op == 1 && q.ptype == 0x0800 && q.hlen == 6 && q.plen == 4 && (a.htype != 1 || a.ptype != 0x0800 || a.hlen != 6 || a.plen != 4 || a.op != 2) {
+                            j.findings.push(finding(
+                                "C05",
+                                "arp-reply-shape",
+                                format!("ARP reply is not an Ethernet/IPv4 reply: hardware type {}, protocol type {:#06x}, lengths {}/{}, operation {}", a.htype, a.ptype, a.hlen, a.plen, a.op),
+                            ));
+                        }
+                    }
                 } else {
                     j.findings.push(finding("C04", "arp-short", "ARP reply shorter than 28 bytes".into()));
                 }
